@@ -545,6 +545,21 @@ func c18Run(c *h.Ctx) {
 		fs = append(fs, c18Fault{Kind: "add-link", A: x, B: y})
 		cases = append(cases, c18Case{n: n, edges: es, faults: fs})
 	}
+	// chains of five with the middle router losing one neighbour and gaining the next one in the same
+	// update: its neighbour towards the far end sees two cost changes that compensate each other (one
+	// destination a hop further, one a hop nearer) in a single fetch, and the router behind it depends on
+	// hearing about that
+	for _, perm := range [][5]int{{0, 1, 2, 3, 4}, {4, 3, 2, 1, 0}, {2, 0, 4, 1, 3}, {1, 4, 0, 3, 2}} {
+		f, a, b, d, e := perm[0], perm[1], perm[2], perm[3], perm[4]
+		k := func(x, y int) [2]int {
+			if x > y {
+				x, y = y, x
+			}
+			return [2]int{x, y}
+		}
+		cases = append(cases, c18Case{n: 5, edges: [][2]int{k(f, a), k(a, b), k(b, d), k(d, e)},
+			faults: []c18Fault{{Kind: "remove-link", A: k(b, d)[0], B: k(b, d)[1], Merge: true}, {Kind: "add-link", A: k(b, e)[0], B: k(b, e)[1]}}})
+	}
 	nSched := c.Pick(3, 6)
 	for ci, base := range cases {
 		if ci%c.NBatch != c.Batch {
